@@ -21,11 +21,12 @@ W = 3
 
 
 class Rig:
-    def __init__(self, role: str, rnd: random.Random):
+    def __init__(self, role: str, rnd: random.Random, bulk: bool = False):
         import sansldap as s
         import sansldap._messages as M
 
         self.role = role
+        self.bulk = bulk   # most messages are tens of kilobytes: the pending stream crosses 64 KiB, 128 KiB, ...
         self.rnd = rnd
         self.opts = M.PackingOptions()
         self.segs: t.Deque[bytes] = collections.deque()  # real segments pending, W per message
@@ -60,6 +61,20 @@ class Rig:
         r = self.rnd
         ctl = msggen.r_controls(r)
         problems = []
+        if self.bulk and r.random() < 0.6:
+            big = bytes([r.randrange(256)]) * r.choice((20000, 40000, 70000, 140000))
+            if self.role == "server":
+                i = r.choice((1, 3))
+                attrs = [M.PartialAttribute("x", [big])]
+                ret = self.s.search_result_entry(i, "cn=big", attrs)
+                exp = M.SearchResultEntry(i, [], "cn=big", attrs)
+                if ret != i:
+                    problems.append(f"response call returned {ret} for message id {i}")
+            else:
+                ret = self.s.extended_request("1.2.3.4", big)
+                exp = M.ExtendedRequest(ret, [], "1.2.3.4", big)
+            self.segs.extend(self.split(exp.pack(self.opts)))
+            return problems
         if self.role == "server" and r.random() < 0.2:
             # a response whose kind does not match the request (id 2 is an extended request): the library may accept or
             # refuse it - C12 only says that the stream holds the message iff the call succeeded
@@ -283,6 +298,25 @@ def replay(rep: C.Report, edges: t.List[t.Dict[str, t.Any]], seed: int, walks: i
                 if d:
                     for prop, sig, text in d:
                         rep.violation(sig, f"{role}: {text} [random walk, {len(hist)} steps]", {"role": role, "history": hist}, prop=prop)
+                    break
+                k = vkey(e["dst"])
+        # the same walks with bulk messages (tens of kilobytes each): buffer management that depends on how much is
+        # pending (release / compaction thresholds) is only reached with a lot of octets queued
+        for _ in range(max(40, walks // 25)):
+            rig = Rig(role, rnd, bulk=True)
+            k = k0
+            hist = []
+            for _ in range(walk_len):
+                es = bysrc.get(k)
+                if not es:
+                    break
+                e = rnd.choice(es)
+                hist.append(e)
+                executed += 1
+                d = step(rig, e)
+                if d:
+                    for prop, sig, text in d:
+                        rep.violation(sig, f"{role}: {text} [bulk random walk, {len(hist)} steps]", {"role": role, "bulk": True, "history": hist}, prop=prop)
                     break
                 k = vkey(e["dst"])
     rep.traces += executed
